@@ -461,6 +461,7 @@ def run(res: Results, idx: Index, tier: str) -> None:
     rule_e(res, idx, mods)
     rule_f(res, idx, mods)
     rule_g(res, idx)
+    rule_h(res, idx)
     _controls(res)
 
 
@@ -795,3 +796,46 @@ def _is_patch_target(fi: FuncInfo, name: str) -> bool:
     """the receiver is the loop variable / resolved target of a patcher that restores in a finally (functions of the patching layer)"""
     txt = fi.module.rel
     return txt.endswith(("_patching.py", "plugin_system.py")) and any(isinstance(n, ast.Try) and n.finalbody for n in ast.walk(fi.node)) or "patch" in fi.name.lower() or "patch" in fi.qualname.lower()
+
+
+# ---------------------------------------------------------------------------------------------- R-C13h
+def rule_h(res: Results, idx: Index) -> None:
+    """JAX memoises traces per function object (jax.checkpoint / remat, jit, custom_jvp: weak-keyed caches inside JAX).  A
+    user function traced while the substitutes are installed leaves a jaxpr made of jax2onnx's primitives in those caches:
+    after to_onnx has returned, calling the same function eagerly replays it (concatenate raised TypeError, fori_loop had no
+    evaluation rule).  The scopes that install the substitutes and then trace user code therefore have to drop JAX's caches
+    when they are left (`jax.clear_caches` as the outermost exit action); the scope the top-level trace runs in must also
+    drop them on entry, or a trace made before the export is replayed inside it (C14)."""
+    res.rule("R-C13h", "scopes that trace user code with the substitutes installed isolate JAX's trace caches (cleared after the patches are undone; the outer scope also clears on entry)", floor=2)
+    SITES = [("jax2onnx/converter/conversion_api.py", "_activate_plugin_worlds", True), ("jax2onnx/plugins/plugin_system.py", "_activate_full_plugin_worlds_for_body", False)]
+    for rel, fn, need_entry in SITES:
+        f = idx.find_func(rel, fn)
+        if f is None:
+            raise AnalysisError(f"{rel}::{fn} not found")
+        key = f"{rel}::{fn}::trace-cache-isolation"
+        yields = [y for y in walk_no_nested(f.node) if isinstance(y, (ast.Yield, ast.YieldFrom))]
+        patches = [c for c in walk_no_nested(f.node) if isinstance(c, ast.Call) and any(isinstance(a, ast.Call) and (call_name(a) or "").endswith("apply_monkey_patches") for a in c.args)]
+        if not yields or not patches:
+            res.unresolved("R-C13h", f.site, key, "scope structure not recognised (no yield / no apply_monkey_patches)", f.qualname)
+            continue
+        def is_clear(e: ast.AST) -> bool:
+            return (isinstance(e, ast.Attribute) and e.attr == "clear_caches") or (isinstance(e, ast.Call) and (call_name(e) or "").endswith("clear_caches"))
+        # exit: `stack.callback(jax.clear_caches)` registered BEFORE the patches are entered (LIFO: runs after they are undone),
+        # or a `finally:` that calls it after the with-block
+        exit_ok = None
+        for c in walk_no_nested(f.node):
+            if isinstance(c, ast.Call) and isinstance(c.func, ast.Attribute) and c.func.attr == "callback" and c.args and is_clear(c.args[0]) and c.lineno < patches[0].lineno:
+                exit_ok = c
+        for t in walk_no_nested(f.node):
+            if isinstance(t, ast.Try) and t.finalbody and any(is_clear(x) for st in t.finalbody for x in ast.walk(st) if isinstance(x, ast.Call)) and any(y in list(ast.walk(t)) for y in yields):
+                exit_ok = exit_ok or t
+        entry_ok = next((c for c in walk_no_nested(f.node) if isinstance(c, ast.Call) and is_clear(c) and patches[0].lineno < c.lineno < yields[0].lineno), None)
+        site = f"{rel}:{yields[0].lineno}"
+        if exit_ok is None:
+            res.violation("R-C13h", site, key, f"{fn} installs the substitutes, lets the caller trace user code and never clears JAX's caches afterwards: a jax.checkpoint / jit-wrapped user function traced inside keeps a "
+                          "jaxpr of jax2onnx primitives, and calling it eagerly after to_onnx returns fails or computes through the substitutes", f.qualname)
+        elif need_entry and entry_ok is None:
+            res.violation("R-C13h", site, key, f"{fn} does not clear JAX's caches after installing the substitutes: a trace of the user function cached before the export is replayed instead of being re-traced, "
+                          "so the export depends on whether the function was called before (softmax in a checkpointed function exports decomposed)", f.qualname)
+        else:
+            res.ok("R-C13h", site, key, "caches are cleared " + ("on entry and " if entry_ok is not None else "") + "after the patches are undone", f.qualname)
